@@ -293,6 +293,6 @@ fn ob_c15_contract_min_max_at_pivot(min: usize, extent: usize, pivot: usize) {
 //@ pre: none
 //@ post: must FAIL (proves that the injected module is compiled and that failures are reported)
 fn ob_c15_canary(x: u8) {
-    let m = DepthMax(x as usize).max_at_pivot(0);
-    assert!(m != 7, "canary");
+    let _ = DepthMax(x as usize).max_at_pivot(0);
+    assert!(x != 7, "canary");
 }
